@@ -673,11 +673,13 @@ impl Pol {
     }
 }
 
-pub const NAME_POOL: [&str; 36] = [
+pub const NAME_POOL: [&str; 37] = [
     "a", "b", "c", "d", "e", "f", "x", "y", "z", "p1", "q_2", "x'", "'y", "Ab", "é", "ñu", "变量",
     "v_0", "v_1", "_", "T", "F", "orx", "nota", "A", "t", "x_", "aB", "a_rather_long_variable_name", "v10",
     // words that are keywords in related languages but plain identifiers here
     "top", "bot", "xnor", "let", "tt", "ff",
+    // canonically equivalent to "é" above (e + combining acute), yet another identifier
+    "e\u{301}",
 ];
 
 pub fn gen_cfg(rng: &mut Prng, max_names: usize, max_depth: usize) -> GenCfg {
